@@ -61,7 +61,7 @@ def run(run, h):
             run.check_monitor("generated_state_passes_decode_validation", h.call("decode", "Started", t[1]) == ["ok", t[1]],
                               {"via": "Ready::start", "k": k, "window_at": i})
     # ---- nonce decoding
-    for x in EDGE + [CLOSE, CLOSE + 1, CLOSE - 1, Q, Q + 1, 2 ** 256 - 1, rand_nz(rng)]:
+    for x in EDGE + [CLOSE, CLOSE + 1, CLOSE - 1, Q, Q + 1, 2 ** 256 - 1, rand_nz(rng), CLOSE + Q, Q + 5, 2 * Q + 1]:
         raw = x.to_bytes(32, "little").hex()
         got = h.call("decode", "Nonce", raw)[0] == "ok"
         case = {"op": "nonce_decode", "value": x}
@@ -127,7 +127,7 @@ def run(run, h):
                                                                      dict(case, model_atoms=len(r))))
             batch.add("r_channel_id %s %s %s %s %s" % (zlist(list(mr)), zlist(list(cr)), zlist(list(pkb)), zlist(list(ma)), zlist(list(ca))),
                       lambda r, base=base, case=case: run.check_corr("corr.C18.channel_id", bytes(r).hex() == base[0], dict(case, model=bytes(r).hex())))
-        ctxb = rng.randbytes(rng.choice([0, 3, 200]))
+        ctxb = rng.randbytes([32, 31, 33, 64, 0, 3, 200, 136][rd % 8])       # 32: the length of a digest itself
         cimpl = h.call("ctx_new", hx(ctxb))[0]
         run.check_monitor("context_is_sha3_of_input", cimpl == sha3(ctxb).hex(), {"ctx": ctxb.hex()})
         if rd == 0:
